@@ -188,8 +188,8 @@ def dump(p):
 # token spellings
 # ---------------------------------------------------------------------------
 
-ID_START = "abcdefghijklmnopqrstuvwxyzABCDEFGHIJKLMNOPQRSTUVWXYZ_" + "éßλжא中あ𝒜"
-ID_CONT = ID_START + "0123456789" + "\u0301\u203f"
+ID_START = "abcdefghijklmnopqrstuvwxyzABCDEFGHIJKLMNOPQRSTUVWXYZ_" + "éßλжא中あ𝒜" + "\u2118\u212e\u2167\u3007\u1885\u16ee\u3021"
+ID_CONT = ID_START + "0123456789" + "\u0301\u203f" + "\u00b7\u0387\u1369\u19da\u0660\uff3f"
 SIMPLE_ESC = {8: "\\b", 12: "\\f", 10: "\\n", 13: "\\r", 9: "\\t", 11: "\\v"}
 
 
@@ -659,7 +659,7 @@ def render(p, alt):
 # random abstract trees
 # ---------------------------------------------------------------------------
 
-TEXT_POOL = "abcxyzABC019 _-.$@\"\\'/*?[](){}\t\n\r\b\f\v\a\x01\x1f\x7fé\u00a0\u200bλ中\ufeff\ufffd😀𝒜\U000e0001\U0010ffff\u2028\u0085"
+TEXT_POOL = "abcxyzABC019 _-.$@\"\\'/*?[](){}\t\n\r\b\f\v\a\x01\x1f\x7fé\u00a0\u200bλ中\ufeff\ufffd😀𝒜\U000e0001\U0010ffff\u2028\u0085\U000fd800\U0010dc00\U000edfff\U0001d7ff\U0002e000"
 REGEX_OK = ["^a", "a.*b", "[a-z]+", "(ab|cd)*", "\\d+", "a{2,3}", "^$", "", "x", "(?i)a", "a\\.b", "é+", "[^\\n]", "\\s", "a|b",
             "(?s).", "[[:alpha:]]", "\\\\", "\\$", "\"q\"", "😀?"]
 
